@@ -96,6 +96,10 @@ _host = st.sampled_from(["example.com"] * 4 + ["a.b-c.example"] * 3 + ["127.0.0.
 _port = st.sampled_from([80, 443, 8080, 22, 1, 65535])
 
 
+_TE_FORMS = [["chunked"], ["Chunked"], ["gzip, chunked"], ["gzip,chunked"], ["identity, chunked"], ["gzip", "chunked"], ["deflate, gzip", "chunked"],
+             ["x-custom , chunked"]]
+
+
 @st.composite
 def _case(draw):
     clean = draw(st.sampled_from([True, True, False]))
@@ -126,7 +130,25 @@ def _case(draw):
         body = draw(_text_body).encode("utf-8")
     else:
         body = draw(_bin_body)
+    # Transfer-Encoding whose final coding is chunked (what a peer may send), single value / coding list / several lines
+    te = draw(st.sampled_from([None] * 10 + _TE_FORMS))
+    if te is not None:
+        headers = [h for h in headers if h[0].lower() not in ("content-length", "transfer-encoding")]
+        pos = draw(st.integers(0, len(headers)))
+        headers[pos:pos] = [["Transfer-Encoding" if i % 2 == 0 else "transfer-encoding", v] for i, v in enumerate(te)]
+        if body is None:
+            body = b""
+    resp = None
+    if draw(st.integers(0, 3)) == 0:
+        rte = draw(st.sampled_from([None] * 3 + _TE_FORMS))
+        rh = [["content-type", "text/plain"], [draw(_word), draw(_hval_clean) or "v"]]
+        if rte is not None:
+            rh[1:1] = [["Transfer-Encoding", v] for v in rte]
+        resp = {"status": draw(st.sampled_from([200, 200, 201, 404, 500, 206])), "reason": draw(st.sampled_from([b"OK", b"Not Found", b"", b"x y"])),
+                "headers": [[k.encode(), v.encode()] for k, v in rh],
+                "body": draw(st.one_of(st.just(b""), _text_body.map(lambda t: t.encode("utf-8")), _bin_body))}
     return {
+        "resp": resp,
         "method": method.encode("utf-8"), "scheme": scheme, "host": host, "port": port, "path": path.encode("utf-8"),
         "headers": [[k.encode("utf-8"), v.encode("utf-8")] for k, v in headers], "body": body,
         "preserve_ip": draw(st.booleans()), "peer": draw(st.sampled_from(["192.168.0.1", "example.com", None, "::1"])),
@@ -396,13 +418,21 @@ def make_flow(case):
     from mitmproxy import http
     from mitmproxy.test import tflow, tutils
     hdrs = http.Headers([(bytes(k), bytes(v)) for k, v in case["headers"]])
-    if case["body"] is not None and not any(k.lower() == b"content-length" for k, _ in case["headers"]) and case["body"]:
+    has_te = any(k.lower() == b"transfer-encoding" for k, _ in case["headers"])
+    if case["body"] is not None and not has_te and not any(k.lower() == b"content-length" for k, _ in case["headers"]) and case["body"]:
         hdrs.add(b"content-length", str(len(case["body"])).encode())
     req = tutils.treq(method=case["method"], scheme=case["scheme"].encode(), host=case["host"].strip("[]"), port=case["port"],
                       path=case["path"], headers=hdrs, content=case["body"],
                       http_version=b"HTTP/2.0" if case["h2"] else b"HTTP/1.1",
                       authority=(("%s:%d" % (case["host"], case["port"])).encode() if case["h2"] else b""))
-    f = tflow.tflow(req=req)
+    resp = False
+    r = case.get("resp")
+    if r:
+        rh = http.Headers([(bytes(k), bytes(v)) for k, v in r["headers"]])
+        if not any(k.lower() == b"transfer-encoding" for k, _ in r["headers"]):
+            rh.add(b"content-length", str(len(r["body"])).encode())
+        resp = tutils.tresp(status_code=r["status"], reason=bytes(r["reason"]), headers=rh, content=bytes(r["body"]), http_version=b"HTTP/1.1")
+    f = tflow.tflow(req=req, resp=resp)
     f.server_conn.peername = (case["peer"], case["port"]) if case["peer"] else None
     return f
 
@@ -552,7 +582,8 @@ def check_case(case, ctx):
             if text_body:
                 ctx.cls("httpie-stdin-%s" % ("exact" if stdin in (body, body + b"\n") else "differs"))
 
-    # ---------------- raw
+    # ---------------- raw (judged by the independent RFC 9112 parser lib/ref_http1.py)
+    import ref_http1
     if body is not None and http_clean(case):
         f = make_flow(case)
         try:
@@ -560,23 +591,50 @@ def check_case(case, ctx):
         except Exception as e:
             ctx.crash(e, prefix="raw-crash")
             return
-        ctx.cls("raw-checked")
-        p = parse_http1_request(raw)
+        has_te = any(k.lower() == b"transfer-encoding" for k, _ in case["headers"])
+        ctx.cls("raw-checked" + (":transfer-encoding" if has_te else ""))
+        if has_te:
+            ctx.nt(("raw-te", repr(sorted(case.items(), key=lambda kv: kv[0]))), "raw:te-request")
         desc = desc0 + " raw=%r" % (raw[:300],)
-        if p is None:
-            ctx.fail("raw:unparsable", desc)
-            return
-        method, target, version, headers, pbody = p
-        if case["h2"]:
-            exp_target = ("%s://%s:%d" % (case["scheme"], case["host"], case["port"])).encode() + case["path"]
-            exp_version = b"HTTP/2.0"
+        res = ref_http1.parse_requests(raw)
+        if res.error or res.incomplete or len(res.msgs) != 1 or res.rest:
+            ctx.fail("raw:unparsable" + (":transfer-encoding" if has_te else ""), desc + " parse=%r" % (res,))
         else:
-            exp_target, exp_version = case["path"], b"HTTP/1.1"
-        if method != case["method"] or target != exp_target or version != exp_version:
-            ctx.fail("raw:request-line", desc + " parsed %r %r %r" % (method, target, version))
-        eh = [(k, v) for k, v in case["headers"] if k.lower() != b"content-length"]
-        gh = [(k, v) for k, v in headers if k.lower() != b"content-length"]
-        if [(bytes(k), bytes(v)) for k, v in eh] != gh:
-            ctx.fail("raw:headers", desc + " parsed %r" % (gh,))
-        if pbody != body:
-            ctx.fail("raw:body", desc + " parsed %r" % (pbody,))
+            m = res.msgs[0]
+            if case["h2"]:
+                exp_target = ("%s://%s:%d" % (case["scheme"], case["host"], case["port"])).encode() + case["path"]
+                exp_version = b"HTTP/2.0"
+            else:
+                exp_target, exp_version = case["path"], b"HTTP/1.1"
+            if m.method != case["method"] or m.target != exp_target or m.version != exp_version:
+                ctx.fail("raw:request-line", desc + " parsed %r %r %r" % (m.method, m.target, m.version))
+            eh = [(bytes(k), bytes(v)) for k, v in case["headers"] if k.lower() != b"content-length"]
+            gh = [(k, v) for k, v in m.fields if k.lower() != b"content-length"]
+            if not ref_http1.fields_equal(eh, gh):
+                ctx.fail("raw:headers", desc + " parsed %r" % (gh,))
+            if m.body != body:
+                ctx.fail("raw:body" + (":transfer-encoding" if has_te else ""), desc + " parsed %r" % (m.body,))
+    r = case.get("resp")
+    if r:
+        f = make_flow(case)
+        try:
+            raw = export.raw_response(f)
+        except Exception as e:
+            ctx.crash(e, prefix="raw-response-crash")
+            return
+        rte = any(k.lower() == b"transfer-encoding" for k, _ in r["headers"])
+        ctx.nt(("raw-resp", repr(sorted(r.items()))), "raw:response" + (":transfer-encoding" if rte else ""))
+        desc = "response=%r raw=%r" % (r, raw[:300])
+        res = ref_http1.parse_responses(raw, methods=[b"GET"])
+        if res.error or res.incomplete or len(res.msgs) != 1 or res.rest:
+            ctx.fail("raw-response:unparsable" + (":transfer-encoding" if rte else ""), desc + " parse=%r" % (res,))
+        else:
+            m = res.msgs[0]
+            if m.status != r["status"] or (m.reason or b"") != bytes(r["reason"]) or m.version != b"HTTP/1.1":
+                ctx.fail("raw-response:status-line", desc + " parsed %r %r %r" % (m.version, m.status, m.reason))
+            eh = [(bytes(k), bytes(v)) for k, v in r["headers"]]
+            gh = [(k, v) for k, v in m.fields if k.lower() != b"content-length"]
+            if not ref_http1.fields_equal(eh, gh):
+                ctx.fail("raw-response:headers", desc + " parsed %r" % (gh,))
+            if m.body != bytes(r["body"]):
+                ctx.fail("raw-response:body" + (":transfer-encoding" if rte else ""), desc + " parsed %r" % (m.body,))
